@@ -129,6 +129,13 @@ def r1(ctx):
         ctx.check(ok_msg, R, "send:message", m, call, "the message forwarded is the parameter", unparse(msg) if msg is not None else "missing")
         ht = send.expand_text(hdr, n) if hdr is not None else ""
         want = "self._registry.header_factory.create_from_message(message, self._registry.get_encoder(message.message_id).size(message))"
+        he = send.expand(hdr, n) if hdr is not None else None
+        if isinstance(he, ast.Call) and dotted(he.func) == "self._registry.header_factory.create_from_message" and he.keywords and all(k.arg in ("message", "message_length") for k in he.keywords) and len(he.args) + len(he.keywords) == 2:
+            # keyword spelling of the same call: bound through the factory protocol's parameter names
+            bound = {"message": he.args[0]} if he.args else {}
+            bound.update({k.arg: k.value for k in he.keywords})
+            if set(bound) == {"message", "message_length"}:
+                ht = f"self._registry.header_factory.create_from_message({norm_text(bound['message'])}, {norm_text(bound['message_length'])})"
         ctx.check(ht == want, R, "send:header", m, call, want, ht)
 
     # (d) drain writes header and message of the one popped entry
@@ -139,6 +146,14 @@ def r1(ctx):
         ctx.violation(R, "_drain_message_queue:_write", m, drain.node, "the popped entry is written", "no self._write(...) call")
     for n, call in writes:
         args = list(call.args)
+        if call.keywords and not any(isinstance(a, ast.Starred) for a in call.args):
+            # keyword spelling: bound through the parameter names of _write
+            wnode = ctx.repo.module(SOCKET).get_class(SOCK_CLS).methods.get("_write")
+            pnames = [a.arg for a in wnode.args.args[1:]] if wnode is not None else []
+            bound = dict(zip(pnames, call.args))
+            bound.update({k.arg: k.value for k in call.keywords if k.arg})
+            if pnames and set(bound) == set(pnames):
+                args = [bound[p_] for p_ in pnames]
         ok = (
             var is not None
             and len(args) == 2
